@@ -22,22 +22,23 @@ TOL = z3.RealVal(3) / 2**24         # 1.5 * EPSILON: any two-rounding evaluation
 
 
 def setup(mod, float_mode):
-    exe = Executor(mod, sc_env.full_table(), float_mode=float_mode, enums=sc_env.SC_ENUMS, timeout_ms=3000)
+    env = sc_env.Css(lmax=1)
+    exe = env.executor(mod, [])
+    exe.float_mode = float_mode
+    exe.solver.set('timeout', 3000)
     exe.unknown_feasible = True
-    p = Path()
+    p = env.new_path(exe)
+    lay = sc_env.layout()
     value = exe.fresh_float('value')
-    ratio = exe.fresh_float('ratio')
+    ratio = z3.Real('opt_rpx_ratio')
     has_sign = z3.Bool('has_sign')
     unit = z3.String('unit')
     int_some = z3.Bool('int_is_some')
     int_val = z3.Int('int_value')
     int_value = SymEnum('intv', 'Option', z3.If(int_some, z3.IntVal(1), z3.IntVal(0)), lambda var, i: int_val)
-    options = Agg('StyleSheetOptions', None, {0: z3.String('class_prefix'), 1: z3.String('class_prefix_sign'), 2: ratio})
-    p.store[('heap', 'ss')] = Agg('StyleSheetTransformer', None, {0: options})
     pos = Agg('Position', None, {0: z3.Int('line'), 1: z3.Int('col')})
     p.store[('heap', 'next')] = Agg('StepToken', None, {0: Agg('Token', 'Dimension', {0: has_sign, 1: value, 2: int_value, 3: unit}), 1: pos})
     p.store[('heap', 'unit')] = unit
-    p.store[('heap', 'input')] = Agg('StepParser')
     fn = mod.find(r'^write_maybe_rpx_dimension$')
     args = [Ref(('heap', 'input')), Ref(('heap', 'ss')), Ref(('heap', 'next')), has_sign, value, int_value, Ref(('heap', 'unit'))]
     sym = dict(value=value, ratio=ratio, has_sign=has_sign, unit=unit, int_some=int_some, int_val=int_val, pos=pos,
@@ -78,11 +79,11 @@ def main(tier):
     is_rpx = s['unit'] == z3.StringVal('rpx')
     seen_convert = seen_pass = False
     for p in returned:
-        evs = [e for e in p.events if e[0].startswith('append_token')]
-        if len(evs) != 1 or evs[0][0] != 'append_token':
+        evs = [e for e in p.events if e[0] == 'out']
+        if len(evs) != 1 or evs[0][2] != 'token' or evs[0][1] != 'normal':
             queries.append(('exactly-one-append_token', exe.base + p.pc, 'events', p, None))
             continue
-        tok_st, src = evs[0][1], evs[0][2]
+        tok_st, src = evs[0][3], evs[0][4]
         tok = tok_st.fields[0]
         position = tok_st.fields[1]
         if not (isinstance(tok, Agg) and tok.variant == 'Dimension'):
@@ -120,7 +121,7 @@ def main(tier):
             seen_pass = True
             queries.append(('gate: untouched => unit!=rpx', exe.base + p.pc + [is_rpx], 'gate', p, None))
             same = [t_sign == s['has_sign'], t_value == value, t_unit == s['unit']]
-            ok_int = t_int is s['int_value']
+            ok_int = isinstance(t_int, SymEnum) and t_int.sid == s['int_value'].sid
             if not ok_int:
                 queries.append(('int_value passed through', exe.base + p.pc, 'passthrough', p, None))
             queries.append(('pass-through field for field', exe.base + p.pc + [z3.Not(z3.And(same))], 'passthrough', p, None))
@@ -231,8 +232,8 @@ def validate(res, exe, returned, s):
         out = run_css(repr(v), r, unit)
         pred = None
         for p in returned:
-            ev = [e for e in p.events if e[0] == 'append_token'][0]
-            tok = ev[1].fields[0]
+            ev = [e for e in p.events if e[0] == 'out'][0]
+            tok = ev[3].fields[0]
             verdict, model, dt = smt.decide(exe.base[2:] + p.pc + [s['value'] == z3.RealVal(repr(v)), s['ratio'] == z3.RealVal(repr(r)),
                                                          s['unit'] == z3.StringVal(unit)] +
                                             [d == 0 for d in p.env.get('deltas', ())])
